@@ -94,3 +94,5 @@ func cmdOfEnc(enc string) string {
 	}
 	return ""
 }
+
+func memconnListen() (string, chan *memconn.Conn) { return memconn.Listen() }
